@@ -38,6 +38,7 @@ type World struct {
 	CGS      float64
 	// bookkeeping for evidence
 	FuncsAnalysed map[*ssa.Function]bool
+	Requested     map[string]bool // function keys the rules asked for (used by -freeze-params)
 	SitesExamined int
 }
 
@@ -237,6 +238,9 @@ func FuncKey(fn *ssa.Function) string {
 
 // Fn resolves a function by canonical key; "" + error if missing.
 func (w *World) Fn(key string) *ssa.Function {
+	if w.Requested != nil {
+		w.Requested[key] = true
+	}
 	return w.Funcs[key]
 }
 
